@@ -57,8 +57,8 @@ Fixpoint pevalM (n : nat) (p : list Q) (A : mat Q) : mat Q :=
 Definition spectral_diag (n : nat) (V : mat Q) (lam : vec Q) (p : list Q) : vec Q :=
   fun i => sumQ (fun k => V i k * V i k * peval p (lam k)) n.
 (* coefficients 1/0!, 1/1!, ..., 1/m! of the truncated exponential series *)
-Fixpoint fact (m : nat) : nat := match m with O => 1%nat | S m' => (m * fact m')%nat end.
-Definition expcoef (m : nat) : list Q := map (fun t => 1 / inject_Z (Z.of_nat (fact t))) (seq 0 (S m)).
+Fixpoint factZ (m : nat) : Z := match m with O => 1%Z | S m' => (Z.of_nat m * factZ m')%Z end.
+Definition expcoef (m : nat) : list Q := map (fun t => 1 / inject_Z (factZ t)) (seq 0 (S m)).
 
 (* ---------------- eigenvector centrality ---------------- *)
 Definition vabs (u : vec Q) : vec Q := fun i => Qabs (u i).
